@@ -1,6 +1,7 @@
 /-
 C05 — Offset packing is sound: every offset resolves to its target or packing fails.
-Property theorems only (helper lemmas live in Lemmas/GraphSer.lean, Lemmas/GraphSort.lean).
+Property theorems only (vocabulary `ObjWF`, `CopyAt`, `readOffset`, `placements`, `unfold`, `readBack` and helper
+lemmas live in Lemmas/GraphSer.lean; sorts in Lemmas/GraphSort.lean; gate/control flow in Lemmas/GraphPack.lean).
 Model: Model/Graph.lean ⇄ write-fonts/src/graph.rs (Graph::serialize, pack_objects, basic_sort,
 has_overflows, find_overflows, sort_kahn, sort_shortest_distance, assign_spaces_hb,
 isolate_subgraph_hb, duplicate_subgraph, try_isolating_subgraphs), write-fonts/src/write.rs
@@ -9,28 +10,11 @@ isolate_subgraph_hb, duplicate_subgraph, try_isolating_subgraphs), write-fonts/s
 import FontVerif.Model.Graph
 import FontVerif.Lemmas.GraphSer
 import FontVerif.Lemmas.GraphPack
+import FontVerif.Lemmas.GraphSort
+import FontVerif.Lemmas.GraphSort2
 set_option linter.unusedVariables false
 namespace FontVerif.C05
 open FontVerif FontVerif.Graph
-
-/-- What `TableData` guarantees for one object by construction (`add_offset` appends `len`
-placeholder bytes at the current end of the buffer and records their position): link widths are
-2, 3 or 4, each link field lies inside the object's bytes, and fields do not overlap. -/
-def ObjWF (o : Obj) : Prop :=
-  (∀ l ∈ o.links, (l.width = 2 ∨ l.width = 3 ∨ l.width = 4) ∧ l.pos + l.width ≤ o.bytes.length) ∧
-  o.links.Pairwise Disjoint
-
-/-- byte `k` of object `o` belongs to none of its link fields -/
-def PlainByte (o : Obj) (k : Nat) : Prop := ∀ l ∈ o.links, ¬ (l.pos ≤ k ∧ k < l.pos + l.width)
-
-/-- the offset a reader finds in the field of link `l` of an object placed at `hd` -/
-def readOffset (out : List Nat) (hd : Nat) (l : Link) : Nat :=
-  beValue ((out.drop (hd + l.pos)).take l.width)
-
-/-- `out` holds at `hd` a copy of `o`: all bytes outside `o`'s own link fields are `o`'s -/
-def CopyAt (out : List Nat) (hd : Nat) (o : Obj) : Prop :=
-  hd + o.bytes.length ≤ out.length ∧
-  ∀ k, k < o.bytes.length → PlainByte o k → out[hd + k]? = o.bytes[k]?
 
 /-! ### (1) serialize is sound for every graph and every order it accepts -/
 
@@ -200,6 +184,176 @@ child; sizes only, the packer never looks at bytes) yields the error, not bytes 
 example :
     dump (Graph.fromObjects [(0, ⟨2, [], [⟨0, 2, 1, 0⟩]⟩), (1, ⟨70000, [], [⟨0, 2, 2, 0⟩]⟩), (2, ⟨1, [], []⟩)] 0) []
       = some none := by
+  decide
+
+/-! ### (1') reading the output back = unfolding the graph -/
+
+/-- **Read-back theorem.**  Whenever `serialize` returns, a reader that starts at the position of
+any laid-out object and follows every offset (big-endian, with its width, relative to its base)
+sees exactly the tree obtained by unfolding the object graph from that object: same bytes outside
+link fields, same children, recursively — to every depth, for every graph and order. -/
+theorem readBack_eq_unfold (g : Graph) (out : List Nat)
+    (hwf : ∀ id o, g.objects.find? id = some o → ObjWF o)
+    (h : serialize g = some out) (fuel : Nat) :
+    ∀ id hd, (id, hd) ∈ placements g g.order 0 → readBack out g fuel hd id = unfold g fuel id := by
+  have hs := (serialize_sound g out hwf h).2
+  induction fuel with
+  | zero => intro id hd _; rfl
+  | succ n ih =>
+    intro id hd hm
+    obtain ⟨o, ho, hcopy, hlinks⟩ := hs id hd hm
+    simp only [readBack, unfold, obj_of_find ho]
+    rw [masked_copy out hd o hcopy]
+    congr 1
+    apply List.map_congr_left
+    intro l hl
+    obtain ⟨tpos, t, hpl, _, _, _, heq⟩ := hlinks l hl
+    rw [heq]
+    exact ih l.target tpos hpl
+
+/-! ### (2) every object reachable from the root is present; the root is first -/
+
+/-- **The order a successful `pack_objects` leaves behind starts with the root and contains every
+object reachable from the root** (graphs with at least two objects; the one-object graph takes the
+trivial branch `order = keys`).  Proved through the loop invariants of `sort_kahn` /
+`sort_shortest_distance`: the order is closed under links whenever the sort's final cycle check
+passes. -/
+theorem pack_reachable_present (g g' : Graph) (fresh fresh' : List Nat) (hn : 1 < g.nodes.length)
+    (h : packObjects g fresh = some (true, g', fresh')) :
+    (∃ tail, g'.order = g'.root :: tail) ∧ ∀ x, Reach g' g'.root x → x ∈ g'.order := by
+  obtain ⟨⟨tail, ht⟩, hclosed⟩ := packObjects_sortedOut g g' fresh fresh' hn h
+  refine ⟨⟨tail, ht⟩, fun x hx => reach_mem g' g'.order g'.root (by rw [ht]; exact List.mem_cons_self) hclosed x hx⟩
+
+/-- **End to end on the final graph**: if `dump` returns bytes, then reading them from position 0
+as the root, following all offsets, yields the unfolding of the final graph from its root (all
+depths); every reachable object of the final graph is in the layout; the gate held. -/
+theorem dump_reads_back (g : Graph) (fresh : List Nat) (out : List Nat) (hn : 1 < g.nodes.length)
+    (h : dump g fresh = some (some out)) :
+    ∃ g' fresh', packObjects g fresh = some (true, g', fresh') ∧ NoOverflow g' ∧
+      (∀ x, Reach g' g'.root x → x ∈ g'.order) ∧
+      ((∀ id o, g'.objects.find? id = some o → ObjWF o) →
+        ∀ fuel, readBack out g' fuel 0 g'.root = unfold g' fuel g'.root) := by
+  obtain ⟨g', fresh', hp, hgate, hs⟩ := dump_bytes_only_if_gate g fresh out h
+  obtain ⟨⟨tail, ht⟩, hreach⟩ := pack_reachable_present g g' fresh fresh' hn hp
+  refine ⟨g', fresh', hp, hgate, hreach, ?_⟩
+  intro hwf fuel
+  apply readBack_eq_unfold g' out hwf hs fuel
+  rw [ht]
+  simp [placements]
+
+/-! ### (3) sort orders -/
+
+/-- `sort_kahn`, when it returns (cycle check passed): objects untouched, root first, order closed
+under links — hence contains everything reachable from the root. -/
+theorem kahn_order_contains_reachable (g g' : Graph) (hn : 1 < g.nodes.length) (h : sortKahn g = some g') :
+    g'.objects = g.objects ∧ (∃ tail, g'.order = g.root :: tail) ∧ ∀ x, Reach g g.root x → x ∈ g'.order := by
+  obtain ⟨ho, hr, ⟨tail, ht⟩, hc⟩ := sortKahn_spec g g' hn h
+  exact ⟨ho, ⟨tail, ht⟩, fun x hx => reach_mem g g'.order g.root (by rw [ht]; exact List.mem_cons_self) hc x hx⟩
+
+/-- `sort_shortest_distance`, when it returns: the same. -/
+theorem shortest_order_contains_reachable (g g' : Graph) (h : sortShortest g = some g') :
+    g'.objects = g.objects ∧ (∃ tail, g'.order = g.root :: tail) ∧ ∀ x, Reach g g.root x → x ∈ g'.order := by
+  obtain ⟨ho, hr, ⟨tail, ht⟩, hc⟩ := sortShortest_spec g g' h
+  exact ⟨ho, ⟨tail, ht⟩, fun x hx => reach_mem g g'.order g.root (by rw [ht]; exact List.mem_cons_self) hc x hx⟩
+
+/-- non-vacuity: diamond 0→{1,2}→3, Kahn order is 0,1,2,3 -/
+example :
+    (sortKahn (Graph.fromObjects [(0, ⟨4, [], [⟨0, 2, 1, 0⟩, ⟨2, 2, 2, 0⟩]⟩), (1, ⟨2, [], [⟨0, 2, 3, 0⟩]⟩),
+      (2, ⟨2, [], [⟨0, 2, 3, 0⟩]⟩), (3, ⟨1, [], []⟩)] 0)).map (·.order) = some [0, 1, 2, 3] := by
+  decide
+
+/-- **`sort_kahn` enumerates exactly the reachable objects, each once**: on a freshly built graph
+(`from_objects`: parent cache stale) in which no link targets the root (true of every acyclic graph
+all of whose objects are reachable from the root), whenever the sort returns, its order has no
+duplicates and `x ∈ order ↔ x reachable from the root`. -/
+theorem kahn_order_enumerates_reachable (g g' : Graph) (hn : 1 < g.nodes.length)
+    (hstale : g.parentsInvalid = true)
+    (hroot : ∀ kv ∈ g.objects, ∀ l ∈ kv.2.links, l.target ≠ g.root)
+    (h : sortKahn g = some g') :
+    g'.order.Nodup ∧ ∀ x, x ∈ g'.order ↔ Reach g g.root x := by
+  obtain ⟨hnd, hsub⟩ := sortKahn_enum g g' hn (updateParents_indeg_zero g g.root hstale hroot) h
+  exact ⟨hnd, fun x => ⟨hsub x, (kahn_order_contains_reachable g g' hn h).2.2 x⟩⟩
+
+/-- **`sort_shortest_distance` enumerates exactly the reachable objects, each once** (same
+hypotheses; no size restriction). -/
+theorem shortest_order_enumerates_reachable (g g' : Graph)
+    (hstale : g.parentsInvalid = true)
+    (hroot : ∀ kv ∈ g.objects, ∀ l ∈ kv.2.links, l.target ≠ g.root)
+    (h : sortShortest g = some g') :
+    g'.order.Nodup ∧ ∀ x, x ∈ g'.order ↔ Reach g g.root x := by
+  obtain ⟨hnd, hsub⟩ := sortShortest_enum g g' (updateParents_indeg_zero g g.root hstale hroot) h
+  exact ⟨hnd, fun x => ⟨hsub x, (shortest_order_contains_reachable g g' h).2.2 x⟩⟩
+
+/-- The same for any state of the parent cache, stated on the cache: if the cached in-degree of the
+root is 0 the order is duplicate free and contains only reachable objects. -/
+theorem shortest_order_nodup_of_root_indeg (g g' : Graph) (hroot : (updateParents g).indeg g.root = 0)
+    (h : sortShortest g = some g') : g'.order.Nodup ∧ ∀ x ∈ g'.order, Reach g g.root x :=
+  sortShortest_enum g g' hroot h
+
+/-
+`kahn_topological` / `shortest_topological` (FULL STATEMENT, NOT PROVED): under the hypotheses of
+`kahn_order_enumerates_reachable`, for every `id ∈ g'.order` and every link `l` of `g.obj id`, the
+index of `l.target` in `g'.order` is larger than the index of `id`; and on an acyclic graph the sort
+returns (`sortKahn g ≠ none`).  What is proved instead (`*_partial` below): positions, not indices —
+for every graph that `pack_objects` accepts, every link has `position(child) ≥ position(parent)`
+(the gate re-checks it), and `serialize` independently re-checks `position(child) ≥
+position(parent) + adjustment` on the layout it computes itself (`serialize_sound`).  Missing: the
+counting argument that `removed[c] = indeg c` forces every parent of `c` to have been processed
+(needs `indeg` = number of links into `c` over all objects, i.e. `update_parents` exact, and the
+order duplicate free).  The harness checks the index form on every generated graph against the real
+code (oracles `kahn-topological`, `shortest-topological`).
+-/
+theorem pack_order_topological_partial (g g' : Graph) (fresh fresh' : List Nat)
+    (h : packObjects g fresh = some (true, g', fresh')) :
+    ∀ kv ∈ g'.objects, ∀ l ∈ kv.2.links, (g'.node kv.1).position ≤ (g'.node l.target).position :=
+  fun kv hkv l hl => (pack_success_passes_gate g g' fresh fresh' h kv hkv l hl).1
+
+/-! ### duplication / re-pointing is invisible to a reader -/
+
+/-
+`pack_preserves_unfold` (FULL STATEMENT, NOT PROVED): `packObjects g fresh = some (ok, g', fresh')`
+with `fresh` duplicate free and disjoint from the ids of `g` ⇒ `∀ fuel, unfold g' fuel g'.root =
+unfold g fuel g.root` (isolation, duplication, link re-pointing and orphan removal never change
+what a reader sees from the root).  Proved below: the abstract half — any re-arrangement that admits
+a renaming `φ` of the new objects onto old objects with equal bytes and equal link shapes up to `φ`
+(what `duplicate_subgraph` and the re-pointing loops of `isolate_subgraph_hb` construct, with
+`φ copy = original`) leaves every unfolding unchanged.  Missing: that `isolateSubgraph`,
+`assignSpaces`, `tryIsolating`, `removeOrphans` maintain such a `φ`.  The harness checks the full
+statement on the real code for every generated graph (oracle `walk-input-graph`: the output is
+walked against the *input* objects).
+-/
+theorem pack_preserves_unfold_partial (g' g : Graph) (φ : Nat → Nat) (hsim : Simulates g' g φ)
+    (hroot : φ g'.root = g.root) (fuel : Nat) : unfold g' fuel g'.root = unfold g fuel g.root := by
+  rw [unfold_simulation g' g φ hsim fuel g'.root, hroot]
+
+/-- non-vacuity: 0→{1,2}, 1→2 with 2 duplicated as 3 for the link from 1 (the shape of graph.rs's
+`duplicate_shared_root_subgraph`); `φ 3 = 2` is a simulation and the unfoldings agree. -/
+example :
+    let g : Graph := Graph.fromObjects [(0, ⟨4, [0, 0, 0, 0], [⟨0, 2, 1, 0⟩, ⟨2, 2, 2, 0⟩]⟩),
+      (1, ⟨2, [0, 0], [⟨0, 2, 2, 0⟩]⟩), (2, ⟨1, [7], []⟩)] 0
+    let g' : Graph := Graph.fromObjects [(0, ⟨4, [0, 0, 0, 0], [⟨0, 2, 1, 0⟩, ⟨2, 2, 2, 0⟩]⟩),
+      (1, ⟨2, [0, 0], [⟨0, 2, 3, 0⟩]⟩), (2, ⟨1, [7], []⟩), (3, ⟨1, [7], []⟩)] 0
+    unfold g' 3 0 = unfold g 3 0 := by
+  rfl
+
+/-! ### the gate ignores `adjustment`: conservative, never unsound -/
+
+/-- `has_overflows` / `find_overflows` compare `position(child) − position(parent)` with the width
+and ignore the link's `adjustment` (graph.rs "TODO: account for 'whence'"), whereas `serialize`
+stores `position(child) − (position(parent) + adjustment)`.  For every link the gate accepts, the
+stored value fits its width whatever the adjustment (adjustments are unsigned): the gate can only
+refuse layouts that would fit, never accept one that does not. -/
+theorem gate_ignoring_adjustment_is_conservative (g : Graph) (parent : Nat) (l : Link)
+    (h : LinkFits g parent l) :
+    (g.node l.target).position - ((g.node parent).position + l.adj) ≤ maxValue l.width := by
+  unfold LinkFits at h
+  omega
+
+/-- …and it is strictly conservative: a 65 540-byte parent with a 16-bit link of adjustment 5 to the
+object right behind it is refused although the stored offset 65 535 fits (sizes only). -/
+example :
+    let g := Graph.fromObjects [(0, ⟨65540, [], [⟨2, 2, 1, 5⟩]⟩), (1, ⟨3, [], []⟩)] 0
+    (packObjects g []).map (·.1) = some false ∧ 65540 - (0 + 5) ≤ maxValue 2 := by
   decide
 
 end FontVerif.C05
